@@ -39,9 +39,6 @@ struct StaticSubj {
         o.size_hint = std::min(size_hint, 70u);
         o.allow_threads = false;
         keys = gen_keys<K>(t, o, meta);
-        const K cap = std::numeric_limits<K>::max() - 16;
-        for (auto &k: keys)
-            if (k > cap) k = cap;
         desc = name + " " + describe_keys(keys, meta);
         if (!execute) return true;
         pool = gen_queries<K>(keys, meta, 4, false, false);
